@@ -182,7 +182,9 @@ func runC04(r *Runner, g *Gen, tier string) string {
 	// 4. very long inputs (beyond what the model's decoder can follow in reasonable time): oracle only
 	for _, n := range []int{scale(tier, 120000, 400000), scale(tier, 300000, 1500000)} {
 		for _, kind := range []string{"strs", "structs", "ptrs", "ints", "f64s", "bytess", "map", "pmap", "pstrs"} {
-			for _, cf := range [][2]string{{"00", "00"}, {"01", "00"}, {"01", "01"}, {"00", "01"}} {
+			// (not default-written data read with ProtoCompatibleArrays: no property promises that direction,
+			// and plenc cannot do it: the slice wrapper chosen by the option ignores the wire type it is given)
+			for _, cf := range [][2]string{{"00", "00"}, {"01", "00"}, {"01", "01"}} {
 				r.Do(L(A("declong"), A(cf[0]), A(cf[1]), A(kind), A(fmt.Sprint(n))), true, "declong")
 			}
 		}
